@@ -132,42 +132,6 @@ def Shape.moveList (m : Mo) : List Shape → Res (List Shape)
       | .ok ys => .ok (y :: ys)
 end
 
-mutual
-/-- every stored point of a shape (centres, polygon vertices). -/
-def Shape.pts : Shape → List Pt
-  | .rect _ _ ctr _ => [ctr]
-  | .circ _ ctr => [ctr]
-  | .poly vs => vs
-  | .group ss => Shape.ptsList ss
-def Shape.ptsList : List Shape → List Pt
-  | [] => []
-  | x :: xs => Shape.pts x ++ Shape.ptsList xs
-end
-
-mutual
-/-- every stored orientation of a shape. -/
-def Shape.angs : Shape → List Rat
-  | .rect _ _ _ θ => [θ]
-  | .circ _ _ => []
-  | .poly _ => []
-  | .group ss => Shape.angsList ss
-def Shape.angsList : List Shape → List Rat
-  | [] => []
-  | x :: xs => Shape.angs x ++ Shape.angsList xs
-end
-
-mutual
-/-- every stored dimension of a shape (length, width, radius). -/
-def Shape.dims : Shape → List Rat
-  | .rect l w _ _ => [l, w]
-  | .circ r _ => [r]
-  | .poly _ => []
-  | .group ss => Shape.dimsList ss
-def Shape.dimsList : List Shape → List Rat
-  | [] => []
-  | x :: xs => Shape.dims x ++ Shape.dimsList xs
-end
-
 /-- The four corners of a rectangle, given `(cθ, sθ) = (cos θ, sin θ)` of its orientation
     (`Rectangle._compute_vertices`, shape.py:201-213: rotate the half-extent box, then translate to the centre). -/
 def rectCorners (l w : Rat) (ctr : Pt) (cθ sθ : Rat) : List Pt :=
@@ -226,29 +190,6 @@ def State.move (m : Mo) (st : State) : Res State :=
       | .error e => .error e
       | .ok o => .ok ⟨p, o, st.vel.map m.rv⟩
 
-def Pos.pts : Pos → List Pt
-  | .none => []
-  | .pt p => [p]
-  | .region sh => sh.pts
-def Pos.angs : Pos → List Rat
-  | .region sh => sh.angs
-  | _ => []
-def Pos.dims : Pos → List Rat
-  | .region sh => sh.dims
-  | _ => []
-def Ori.angs : Ori → List Rat
-  | .exact θ => [θ]
-  | _ => []
-def Ori.ivs : Ori → List I
-  | .iv i => [i]
-  | _ => []
-
-def State.pts (st : State) : List Pt := st.pos.pts
-def State.angs (st : State) : List Rat := st.pos.angs ++ st.ori.angs
-def State.ivs (st : State) : List I := st.ori.ivs
-def State.dims (st : State) : List Rat := st.pos.dims
-def State.vels (st : State) : List Pt := st.vel.toList
-
 /-- `Trajectory.translate_rotate` / `GoalRegion.translate_rotate`: every state. -/
 def moveStates (m : Mo) (l : List State) : Res (List State) := mapR (State.move m) l
 
@@ -298,9 +239,6 @@ def Lanelet.move (m : Mo) (la : Lanelet) : Res Lanelet :=
       match polyMk (r' ++ l'.reverse) with
       | .error e => .error e
       | .ok p' => .ok ⟨l', c', r', st', p'⟩
-
-def Lanelet.pts (la : Lanelet) : List Pt :=
-  la.left ++ la.center ++ la.right ++ (match la.stop with | none => [] | some sl => [sl.1, sl.2]) ++ la.poly
 
 /-- `TrafficSign.translate_rotate` / `TrafficLight.translate_rotate`: the position. -/
 def movePosition (m : Mo) (p : Pt) : Res Pt :=
@@ -375,23 +313,6 @@ def Obstacle.move (m : Mo) : Obstacle → Res Obstacle
       | .error e => .error e
       | .ok sh' => .ok (.env sh')
 
-def Pred.states : Pred → List State
-  | .traj sts => sts
-  | _ => []
-def Pred.shapes : Pred → List Shape
-  | .occ shs => shs
-  | _ => []
-
-def Obstacle.states : Obstacle → List State
-  | .static st => [st]
-  | .dynamic st p => st :: p.states
-  | _ => []
-def Obstacle.shapes : Obstacle → List Shape
-  | .dynamic _ p => p.shapes
-  | .phantom (some shs) => shs
-  | .env sh => [sh]
-  | _ => []
-
 /-! ### scenario, planning problems -/
 
 structure Scenario where
@@ -435,29 +356,5 @@ def Problem.move (m : Mo) (pp : Problem) : Res Problem :=
     | .ok g' => .ok ⟨i', g'⟩
 
 def moveProblems (m : Mo) (l : List Problem) : Res (List Problem) := mapR (Problem.move m) l
-
-/-! ### observations: every stored point / orientation / interval / dimension -/
-
-def statesPts (l : List State) : List Pt := l.flatMap State.pts
-def statesAngs (l : List State) : List Rat := l.flatMap State.angs
-def statesIvs (l : List State) : List I := l.flatMap State.ivs
-def statesDims (l : List State) : List Rat := l.flatMap State.dims
-def statesVels (l : List State) : List Pt := l.flatMap State.vels
-
-def Obstacle.pts (o : Obstacle) : List Pt := statesPts o.states ++ Shape.ptsList o.shapes
-def Obstacle.angs (o : Obstacle) : List Rat := statesAngs o.states ++ Shape.angsList o.shapes
-def Obstacle.ivs (o : Obstacle) : List I := statesIvs o.states
-def Obstacle.dims (o : Obstacle) : List Rat := statesDims o.states ++ Shape.dimsList o.shapes
-def Obstacle.vels (o : Obstacle) : List Pt := statesVels o.states
-
-def Scenario.pts (sc : Scenario) : List Pt :=
-  sc.lanelets.flatMap Lanelet.pts ++ sc.signs ++ sc.lights ++ sc.obstacles.flatMap Obstacle.pts
-def Scenario.angs (sc : Scenario) : List Rat := sc.obstacles.flatMap Obstacle.angs
-def Scenario.ivs (sc : Scenario) : List I := sc.obstacles.flatMap Obstacle.ivs
-def Scenario.dims (sc : Scenario) : List Rat := sc.obstacles.flatMap Obstacle.dims
-def Scenario.vels (sc : Scenario) : List Pt := sc.obstacles.flatMap Obstacle.vels
-
-def Problem.states (pp : Problem) : List State := pp.init :: pp.goal
-def problemsStates (l : List Problem) : List State := l.flatMap Problem.states
 
 end CR.Rigid
